@@ -2,7 +2,7 @@
 From V.lib Require Import Base.
 From V.c09 Require Import C09Model C09Spec.
 From V.c05 Require Import C05Model C05FragModel.
-From V.c11 Require Import C11Model C11FetchModel C11Spec.
+From V.c11 Require Import C11Model C11FetchModel C11Spec C11CombModel C11InitModel.
 Require Import ExtrOcamlBasic.
 Separate Extraction
   nat track sync_point fsample trun_in frag_in C11Model.trex traf_out frag_out
@@ -14,4 +14,6 @@ Separate Extraction
   read_trun
   fetch_interval fetch_meta_interval copy_media_data create_sample_flags
   C09Spec.consistent data_ok one_offset_box expansion
-  seg_track seg_track_lazy mux_segments read_back read_all itrack_of to_full write_segment.
+  seg_track seg_track_lazy mux_segments read_back read_all itrack_of to_full write_segment
+  combine_media read_input read_output no_trex_reliance din_wf din_track single_frag
+  seg_inits seg_mux_init comb_init reseg_init.
